@@ -14,6 +14,12 @@ use std::panic::{catch_unwind, AssertUnwindSafe};
 /// Run `f` in a forked child with a wall-clock limit; returns the child's output line or a
 /// `signal:<n>` / `timeout` / `exit:<code>` marker.
 pub fn in_child<F: FnOnce() -> String>(timeout_ms: u64, f: F) -> String {
+    in_child_opt(timeout_ms, false, f)
+}
+
+/// With `stream`, events are written to the pipe as they happen, followed by `|` and the
+/// final result line if the run returns. At most 256 KiB of streamed events are kept.
+pub fn in_child_opt<F: FnOnce() -> String>(timeout_ms: u64, stream: bool, f: F) -> String {
     unsafe {
         let mut fds = [0i32; 2];
         assert!(libc::pipe(fds.as_mut_ptr()) == 0);
@@ -21,6 +27,9 @@ pub fn in_child<F: FnOnce() -> String>(timeout_ms: u64, f: F) -> String {
         assert!(pid >= 0);
         if pid == 0 {
             libc::close(fds[0]);
+            if stream {
+                crate::vio::STREAM_FD.store(fds[1], std::sync::atomic::Ordering::Relaxed);
+            }
             let res = catch_unwind(AssertUnwindSafe(f)).unwrap_or_else(|e| {
                 let msg = if let Some(s) = e.downcast_ref::<String>() {
                     s.clone()
@@ -31,6 +40,7 @@ pub fn in_child<F: FnOnce() -> String>(timeout_ms: u64, f: F) -> String {
                 };
                 format!("panic:{}", msg.replace('\n', " "))
             });
+            let res = if stream { format!("|{res}") } else { res };
             let bytes = res.as_bytes();
             let mut off = 0;
             while off < bytes.len() {
@@ -65,6 +75,10 @@ pub fn in_child<F: FnOnce() -> String>(timeout_ms: u64, f: F) -> String {
                 break;
             }
             out.extend_from_slice(&buf[..n as usize]);
+            if stream && out.len() > (256 << 10) && !out.contains(&b'|') {
+                timed_out = true;
+                break;
+            }
         }
         libc::close(fds[0]);
         if timed_out {
@@ -169,6 +183,19 @@ macro_rules! by_width {
     };
 }
 pub(crate) use by_width;
+
+/// runs|backend|w|level|mode|budget|timeout_ms|src-hex|env : like `run`, but streaming events:
+/// `<events so far> |<result line>` if it returned, `timeout <events so far>` otherwise
+pub fn runs(f: &[&str]) -> String {
+    let backend = f[0].to_string();
+    let w: u32 = f[1].parse().unwrap();
+    let level: u32 = f[2].parse().unwrap();
+    let mode = parse_mode(f[3], f[4]);
+    let timeout: u64 = f[5].parse().unwrap();
+    let src = String::from_utf8(hex_bytes(f[6])).expect("utf8 source");
+    let env = Env::parse(f[7]);
+    in_child_opt(timeout, true, move || by_width!(w, run_backend, &backend, level, mode, &src, &env))
+}
 
 /// run|backend|w|level|mode|budget|timeout_ms|src-hex|env
 pub fn run(f: &[&str]) -> String {
